@@ -1289,6 +1289,9 @@ def ctx_rules(ctx: Ctx) -> None:
                 if isinstance(pv, ast.Call) and norm(pv.func) in ("functools.partial", "partial") and len(pv.args) == 1:
                     call = ast.Call(func=pv.args[0], args=[], keywords=list(pv.keywords) + list(call.keywords))
             kws = {k.arg: norm(k.value) for k in call.keywords} if isinstance(call, ast.Call) else {}
+            # an option handed on from an optional parameter of fill_context itself: the default path passes that parameter's default
+            own_defaults = {a_.arg: norm(d_) for a_, d_ in list(zip(reversed(fn.args.args), reversed(fn.args.defaults))) + list(zip(fn.args.kwonlyargs, fn.args.kw_defaults)) if isinstance(d_, ast.Constant)}
+            kws = {k_: (own_defaults[v_] if v_ in own_defaults and not any(isinstance(w_, ast.Name) and w_.id == v_ and isinstance(w_.ctx, ast.Store) for w_ in ast.walk(fn)) else v_) for k_, v_ in kws.items()}
             ex = mod.fn("extract")
             defaults = {a.arg: norm(d) for a, d in zip(ex.args.kwonlyargs, ex.args.kw_defaults)}
             pushf = mod.fn("ExtractOptions.push")
@@ -1538,6 +1541,12 @@ def opt2(ctx: Ctx) -> None:
         ctx.R.fail("OPT-2", mod, push, "push must be a @contextmanager")
     tries = [s for s in push.body if isinstance(s, ast.Try) and s.finalbody and any(isinstance(y, ast.Yield) for y in ast.walk(ast.Module(body=s.body, type_ignores=[])))]
     yields = [y for y in ast.walk(push) if isinstance(y, ast.Yield)]
+    withs = [w_ for w_ in walk_scope(push) if isinstance(w_, (ast.With, ast.AsyncWith)) and any(isinstance(y, ast.Yield) for y in ast.walk(w_))]
+    if (len(tries) != 1 or len(yields) != 1) and len(yields) == 1 and (withs or any(isinstance(t_, ast.Try) and t_.finalbody for t_ in walk_scope(push))):
+        # the yield sits in a `with` (an ExitStack with a restoring callback, a helper manager) or in a differently shaped try: the
+        # restore may well be there, in a form this rule does not read
+        ctx.R.undecided("OPT-2", "push scopes its yield with a `with` statement / a try of another shape; whether the saved values are restored on every exit is not decided")
+        return
     if len(tries) != 1 or len(yields) != 1:
         ctx.R.fail("OPT-2", mod, push, "push must save the option fields before overwriting them and restore them in a `finally` enclosing its single yield: "
                    "otherwise a nested extract that ends by exception leaves the inner options in force", construct="save / try: yield / finally: restore")
@@ -1636,6 +1645,12 @@ def opt3(ctx: Ctx) -> None:
                     continue
                 if m.in_dead_helper(n):
                     continue  # a helper the normaliser inlined at every call site: its body was judged there
+                if m.name == "_extract" and q and q.startswith("ExtractOptions.") and q.count(".") == 1 and q.split(".")[1].startswith("_"):
+                    # a private method of the options class that only push refers to (called, or registered as its restore callback)
+                    meth = q.split(".")[1]
+                    refs = [(m2, x_) for m2 in ctx.P.analysed_mods() for x_ in ast.walk(m2.tree) if isinstance(x_, ast.Attribute) and x_.attr == meth]
+                    if refs and all(m2.name == "_extract" and m2.qualname_of(x_) == "ExtractOptions.push" for m2, x_ in refs):
+                        continue
                 ctx.R.fail("OPT-3", m, n, "an option field is written outside ExtractOptions.push: the save/restore discipline no longer covers every change")
             if isinstance(n, ast.Call) and norm(n.func) in ("setattr", "delattr") and n.args and "current_options" in norm(n.args[0]):
                 ctx.R.fail("OPT-3", m, n, "option field written through setattr")
